@@ -1,6 +1,7 @@
 // Seeded generators of circuits and parameter sets inside the domains stated by the properties.
 #pragma once
 #include <algorithm>
+#include <cmath>
 #include <cstdint>
 #include <limits>
 #include <random>
@@ -421,6 +422,18 @@ inline ColoquinteParameters genParams(Rng &r, const ParamOpts &o) {
     pe.initialValue = r.pick(std::vector<double>{0.001, 0.03, 1.0});
     pe.updateFactor = r.pick(std::vector<double>{1.01, 1.07, 1.23, 1.9});
     pe.targetBlending = r.pick(std::vector<double>{0.11, 0.5, 1.0, 1.1});
+  }
+  // C06/C07 domain: the numerical distances stay >= 0.1 over the whole run, i.e. also after maxNbSteps applications of
+  // their per-step update factors (a distance shrunk to 1e-6 by a factor 0.8 is the excluded single-precision limit)
+  {
+    auto &g = p.global;
+    double steps = g.maxNbSteps;
+    if (g.continuousModel.approximationDistanceUpdateFactor < 1.0 &&
+        g.continuousModel.approximationDistance * std::pow(g.continuousModel.approximationDistanceUpdateFactor, steps) < 0.1)
+      g.continuousModel.approximationDistanceUpdateFactor = 1.0;
+    if (g.penalty.cutoffDistanceUpdateFactor < 1.0 &&
+        g.penalty.cutoffDistance * std::pow(g.penalty.cutoffDistanceUpdateFactor, steps) < 0.1)
+      g.penalty.cutoffDistanceUpdateFactor = 1.0;
   }
   p.check();  // the generator must stay inside the accepted set; a throw here is a harness error
   return p;
